@@ -1,6 +1,6 @@
 #!/bin/bash
 # tools/run_seed.sh <seed-dir> <prop> [<prop>...] : apply the seeded patch to /repo, run the quick checks, undo.
-d="$1"; shift
+d="$(cd "$1" && pwd)"; shift
 git -C /repo diff --quiet || { echo "/repo is dirty"; exit 2; }
 git -C /repo apply "$d/patch.diff" || { echo "patch does not apply"; exit 2; }
 for p in "$@"; do
